@@ -23,8 +23,6 @@ vars == <<s, last, ret, over, allLegal, post, hist>>
 MCCfg2222 == [num_jobs |-> 2, num_machines |-> 2, max_num_ops |-> 2, max_op_duration |-> 2, generator |-> "mc"]
 MCCfg2212 == [num_jobs |-> 2, num_machines |-> 2, max_num_ops |-> 1, max_op_duration |-> 2, generator |-> "mc"]
 MCCfg3221 == [num_jobs |-> 3, num_machines |-> 2, max_num_ops |-> 2, max_op_duration |-> 1, generator |-> "mc"]
-MCCfg3222 == [num_jobs |-> 3, num_machines |-> 2, max_num_ops |-> 2, max_op_duration |-> 2, generator |-> "mc"]
-MCCfg2232 == [num_jobs |-> 2, num_machines |-> 2, max_num_ops |-> 3, max_op_duration |-> 2, generator |-> "mc"]
 MCCfg2322 == [num_jobs |-> 2, num_machines |-> 3, max_num_ops |-> 2, max_op_duration |-> 2, generator |-> "mc"]
 MCCfg2223 == [num_jobs |-> 2, num_machines |-> 2, max_num_ops |-> 2, max_op_duration |-> 3, generator |-> "mc"]
 
